@@ -32,7 +32,13 @@ def run_variant(prop, edits):
     tmp = tempfile.mkdtemp(prefix="pepit_sa_")
     try:
         _copy_pkg(tmp)
-        for rel, old, new in edits:
+        for ed in edits:
+            if ed[0] == "@patch":
+                r = subprocess.run(["patch", "-p1", "-s", "-i", ed[1]], cwd=tmp, capture_output=True, text=True)
+                if r.returncode != 0:
+                    return "skipped", None, "patch %s does not apply to the current tree" % os.path.basename(os.path.dirname(ed[1]))
+                continue
+            rel, old, new = ed
             p = os.path.join(tmp, rel)
             if not os.path.exists(p):
                 return "skipped", None, "file %s missing" % rel
